@@ -95,7 +95,9 @@ class Gen:
     def unary(self, cur: str) -> str:
         r, b = self.r, self.b
         kinds = ["gelu", "gelu_tanh", "silu", "tanh", "relu", "softmax", "dropout0", "dropout_eval",
-                 "mul_scalar", "add_scalar", "nn_gelu", "nn_silu"]
+                 "mul_scalar", "add_scalar", "nn_gelu"]
+        if self.ok("nn_silu"):
+            kinds.append("nn_silu")
         if self.ok("nn_softmax"):
             kinds.append("nn_softmax")
         k = r.choice(kinds)
